@@ -679,7 +679,6 @@ Proof.
 Qed.
 
 (* ---------------------------------------------------------------- flushRetryBuffers: one level down *)
-Definition lower (s : st) (h' : nat) : st := set_lv (set_hwm s h') (set_lbuf h' [] (lv s)).
 
 Lemma inv1_lower mx s h' : Inv1 mx s -> hwm s = S h' -> ~ pend s (S h') -> Inv1 mx (lower s h').
 Proof.
